@@ -545,7 +545,7 @@ _COVER = {
             'contexts.__str__', 'contexts.__repr__', 'contexts.objects', 'contexts.properties', 'contexts.bools'],
     'C20': ['visualize.render_all'],
     'C19': ['contexts.objects', 'contexts.properties', 'contexts.bools'],
-    'C01': ['contexts.objects', 'contexts.properties', 'contexts.bools'],
+    'C01': ['contexts.objects', 'contexts.properties', 'contexts.bools', 'matrices.Relation.__repr__'],
     'C13': ['definitions.__getitem__', 'definitions.__getitem__.int0', 'definitions.__getitem__.int1', 'definitions.__getitem__.int2', 'definitions.__getitem__.int3',
             'definitions.__ne__', 'tools.Unique.rsub', 'lemma.rsub_model', 'tools.Unique.__repr__', 'definitions.__str__', 'definitions.__repr__'],
     'C09': ['lattices.upset_generalization', 'lemma.traversal.generalization'],
